@@ -1172,6 +1172,108 @@ def rule_estimator_bound(rep, repo, tier):
   rep.extra["estimator_paths"] = npaths
 
 
+def rule_estimator_from_sample(rep, repo):
+  """R8: analyze_accumulator_from_sample, interpreted on a synthetic model
+  (four quantized layer classes and one other layer) whose sub-model
+  predictions are given: in conservative mode every quantized layer must be
+  handed to analyze_accumulator with (min, max) of the samples of ITS OWN
+  input; in sampled mode the size reported for a layer must bound log2 of the
+  largest magnitude among ITS OWN output samples."""
+  from ..pe import Obj, NArr
+  es = repo.module(ES)
+  fn = es.functions.get("analyze_accumulator_from_sample")
+  if fn is None:
+    raise AnalysisError("anchor-missing estimate.analyze_accumulator_from_"
+                        "sample")
+  unit = "%s::analyze_accumulator_from_sample" % es.relpath
+  rep.unit(unit)
+  loc = es.loc(fn)
+
+  def mk(qual, name):
+    ci = repo.classes.get(qual)
+    if ci is None:
+      raise AnalysisError("anchor-missing class %s" % qual)
+    o = Obj(ci)
+    o.attrs.update({"name": name, "input": ("in", name),
+                    "output": ("out", name)})
+    return o
+  other = Mock("plain activation layer", {"name": "r", "input": ("in", "r"),
+                                          "output": ("out", "r")})
+  orders = (
+      [mk("qkeras.qlayers.QDense", "a"), other,
+       mk("qkeras.qconvolutional.QConv2D", "b"),
+       mk("qkeras.qconvolutional.QDepthwiseConv2D", "c"),
+       mk("qkeras.qconvolutional.QConv1D", "d")],
+      [other, mk("qkeras.qconvolutional.QConv1D", "d"),
+       mk("qkeras.qconvolutional.QDepthwiseConv2D", "c"), other,
+       mk("qkeras.qlayers.QDense", "a")])
+  samples = {
+      ("in", "a"): NArr([F(-3), F(2), F(1, 2)]),
+      ("in", "b"): NArr([F(0), F(5)]),
+      ("in", "c"): NArr([F(-1), F(-7)]),
+      ("in", "d"): NArr([F(1), F(1)]),
+      ("in", "r"): NArr([F(-100), F(100)]),
+      ("out", "a"): NArr([F(-3), F(2)]),
+      ("out", "b"): NArr([F(0), F(0)]),
+      ("out", "c"): NArr([F(-9), F(4)]),
+      ("out", "d"): NArr([F(1, 4), F(1, 8)]),
+      ("out", "r"): NArr([F(100)])}
+  for oi, layers in enumerate(orders):
+    names = [l.attrs["name"] for l in layers if isinstance(l, Obj)]
+    for mode in ("conservative", "sampled"):
+      cfg = "mode=%s, layers %s" % (mode, "/".join(
+          l.attrs["name"] for l in layers))
+      cap = {}
+
+      def model_ctor(pe, a, k):
+        outs = k.get("outputs", a[1] if len(a) > 1 else None)
+        return Mock("evaluation sub-model", {
+            "predict": lambda pe2, a2, k2: [samples[o] for o in outs]})
+
+      def aa(pe, a, k, cap=cap):
+        cap["model"] = a[0]
+        cap["x"] = a[1] if len(a) > 1 else k.get("x")
+        return "SIZES"
+      pe = PE(repo, module_overrides={es.name: {
+          "unfold_model": lambda pe, a, k: a[0],
+          "Activation": lambda pe, a, k: (lambda pe2, a2, k2: a2[0]),
+          "Model": model_ctor, "analyze_accumulator": aa}})
+      pe.opaque_ext = True
+      model = Mock("model", {"layers": layers, "inputs": ["model input"]})
+      try:
+        res = pe.call(pe.lookup_global("analyze_accumulator_from_sample", es),
+                      [model, "x_sample"], {"mode": mode})
+      except PyRaise as e:
+        rep.fail("R8", unit, "from-sample-raises", "%s raises %s" % (cfg, e),
+                 loc=loc, instance=cfg)
+        continue
+      if mode == "conservative":
+        want = {n: (min(samples[("in", n)]), max(samples[("in", n)]))
+                for n in names}
+        got = cap.get("x")
+        rep.check(res == "SIZES" and cap.get("model") is model and
+                  isinstance(got, dict) and
+                  {k_: tuple(v_) for k_, v_ in got.items()} == want,
+                  "R8", unit, "input-range-of-another-layer",
+                  "%s: analyze_accumulator is handed %r; the (min, max) of "
+                  "each quantized layer's own input samples is %r" % (
+                      cfg, got, want), loc=loc, instance=cfg)
+      else:
+        bad = []
+        for n in names:
+          mx = max(abs(v) for v in samples[("out", n)])
+          sz = res.get(n) if isinstance(res, dict) else None
+          if not isinstance(sz, (int, F)) or (mx > 0 and F(2) ** int(sz)
+                                              < mx):
+            bad.append("%s: size %r for output samples with max |v| = %s" %
+                       (n, sz, mx))
+        rep.check(not bad and isinstance(res, dict) and set(res) ==
+                  set(names), "R8", unit, "sampled-size-below-sample",
+                  "%s: %s (returned %r)" % (cfg, "; ".join(bad) or
+                                            "wrong set of layers", res),
+                  loc=loc, instance=cfg)
+
+
 def run(rep, repo, tier):
   rep.trusted.append("the factories' own arithmetic is C16/C17; here only "
                      "which values are wired where")
@@ -1190,6 +1292,8 @@ def run(rep, repo, tier):
   rule_input_types(rep, repo)
   rule_estimator_bound(rep, repo, tier)
   rep.require_instances("R7", 8)
+  rule_estimator_from_sample(rep, repo)
+  rep.require_instances("R8", 4)
   rep.require_instances("R6", 25)
   rep.require_instances("R4", 14)
   rep.require_instances("R3", 200)
